@@ -108,9 +108,21 @@ def oracle_components(sp, w, ents, types, when):
                  '%s: entity %r owns %d components, model %d' % (when, e, len(got), len(comps)))
 
 
-def h_components(sp, n=4, query_root=False, second='any'):
+FLAVOURS = [
+    ('plain', {}),
+    ('falsy', {'__bool__': lambda self: False}),
+    ('empty', {'__len__': lambda self: 0}),
+    ('all-equal', {'__eq__': lambda self, other: True, '__hash__': lambda self: 1}),
+]
+
+
+def h_components(sp, n=4, query_root=False, second='any', flavours=1):
     _tick()
-    root = type('Root', (), {})
+    fname, fns = FLAVOURS[sp.choose(flavours, 'flavour')] if flavours > 1 else FLAVOURS[0]
+    if fname != 'plain':
+        sp.cover('unusual-' + fname)
+        sp.note('component instances are %s' % fname)
+    root = type('Root', (), dict(fns))
     classes = build_hierarchy(sp, n, root, {})
     if classes is None:
         sp.done()
@@ -264,11 +276,13 @@ HARNESSES = {
 TIERS = {
     'quick': [
         ('components', dict(n=4)),
+        ('components', dict(n=3, flavours=4), dict(required=['unusual-falsy', 'unusual-empty', 'unusual-all-equal', 'removed'])),
         ('processors', dict(n=4)),
     ],
     'thorough': [
         ('components', dict(n=5, second='last')),
         ('components', dict(n=4, query_root=True)),
+        ('components', dict(n=4, flavours=4), dict(required=['unusual-falsy', 'unusual-empty', 'unusual-all-equal', 'removed'])),
         ('processors', dict(n=5)),
         ('processors', dict(n=4, query_root=True)),
     ],
@@ -289,7 +303,7 @@ RULE = ('one evaluation = one feasible path = one (hierarchy, base order, owned 
         '(tag mro-rejected) are counted but trivial')
 BOUNDS = {
     'quick': 'n=4 classes below a fresh root: all 64 DAGs x 2 base orders, 16 owned subsets on entity 1, '
-             '0-1 component on entity 2, 4 query types; the same for Processor subclasses (16 registered subsets)',
+             '0-1 component on entity 2, 4 query types; n=3 with falsy / empty / all-equal component instances; the same for Processor subclasses (16 registered subsets)',
     'thorough': 'n=5 classes: all 1024 DAGs x 2 base orders, 32 subsets, entity 2 empty or owning the last class, '
                 '5 query types; '
                 'n=4 additionally queried by the root class; the same for Processor subclasses',
@@ -299,6 +313,7 @@ ASSUMPTIONS = [
     'bases are listed in ascending or in descending creation order (the same for all classes of one hierarchy); '
     'orders CPython rejects are not hierarchies "Python accepts" and are skipped (tag mro-rejected)',
     'at most one component per exact type per entity, each attached once (replacement is C01)',
+    'component objects may be falsy (__bool__ False / __len__ 0) or compare equal to everything: identity is what counts',
     'when several objects match and none has exactly the queried type, any matching object is accepted',
     'components and processors are plain (no event handlers; callbacks are C02/C07)',
     'processors are added with their class default priority 0, so `processors` keeps insertion order; only the '
